@@ -445,23 +445,27 @@ impl syn::parse::Parse for NestedMeta {
 }
 
 /// syn reads the value of `name = -1` as one negative literal only when nothing follows it in the
-/// stream; before a comma the same tokens are `-` applied to `1`. A trailing comma is optional, so
-/// the item is the same item wherever it stands: the literal reading is used throughout.
+/// stream; before a comma the same tokens are `-` applied to `1`. In the same way a literal inside
+/// invisible groups (a `macro_rules!` fragment) is handed over bare at the end of the stream and as
+/// an `Expr::Group` before a comma. A trailing comma is optional, so the item is the same item
+/// wherever it stands: the literal reading is used throughout.
 fn negative_value_as_lit(mut meta: syn::Meta) -> syn::Meta {
     if let syn::Meta::NameValue(ref mut nv) = meta {
-        if let syn::Expr::Unary(syn::ExprUnary {
-            ref attrs,
-            op: syn::UnOp::Neg(_),
-            ..
-        }) = nv.value
-        {
-            if attrs.is_empty() {
-                if let Ok(lit) = syn::parse2::<syn::Lit>(nv.value.to_token_stream()) {
-                    nv.value = syn::Expr::Lit(syn::ExprLit {
-                        attrs: Vec::new(),
-                        lit,
-                    });
-                }
+        if matches!(
+            nv.value,
+            syn::Expr::Group(_)
+                | syn::Expr::Unary(syn::ExprUnary {
+                    op: syn::UnOp::Neg(_),
+                    ..
+                })
+        ) {
+            // `Lit`'s parser looks through invisible groups and accepts a leading `-`; it fails
+            // on anything else, an attribute included.
+            if let Ok(lit) = syn::parse2::<syn::Lit>(nv.value.to_token_stream()) {
+                nv.value = syn::Expr::Lit(syn::ExprLit {
+                    attrs: Vec::new(),
+                    lit,
+                });
             }
         }
     }
